@@ -4,10 +4,10 @@
      old <hex>                  image of the pre-populated file
      W <off> <flushno> <hex>    write log of the real library, in order
      ops <cache>                (optional) start of the H-level op list for the model
-     put <tag> <ref> <len> <hex> | app <tag> <ref> <hex> .. | sync
+     put <tag> <ref> <len> <hex> | app <tag> <ref> <hex> .. | putn <tag> <len> <hex> | del <tag> <ref> | sync
      X
    Output:
-     S <name> / wf <0|1> / E <old_end|fail>
+     S <name> / wf <0|1> / E <old_end|fail> / D <tag> <ref> <off> <len> (old directory)
      P <k> <parses> <preserves>   for every prefix k = 0..n of the library's log (image built incrementally)
      A <k> <0|1>                  offset of write k >= old end
      ML <episode> <pre|flush> <off> <hex>    model's predicted log
@@ -34,6 +34,8 @@ let process name old writes ops =
    | Some bl ->
      let e = old_end bl in
      Printf.printf "E %d\n" (int_of_z e);
+     List.iter (fun d -> Printf.printf "D %d %d %d %d\n" (int_of_z d.d_tag) (int_of_z d.d_ref) (int_of_z d.d_off) (int_of_z d.d_len))
+       (all_dds bl);
      let img = ref old in
      Printf.printf "P 0 %s %s\n" (b2s (parse_file !img <> None)) (b2s (preserves old !img));
      List.iteri (fun i (off, _, bs) ->
@@ -69,6 +71,9 @@ let () =
          cur := OpPut (z_of_int (int_of_string t), z_of_int (int_of_string r), z_of_int (int_of_string l), unhex h) :: !cur
        | "app" :: t :: r :: hs ->
          cur := OpApp (z_of_int (int_of_string t), z_of_int (int_of_string r), List.map unhex hs) :: !cur
+       | "putn" :: t :: l :: h :: _ ->
+         cur := OpPutNew (z_of_int (int_of_string t), z_of_int (int_of_string l), unhex h) :: !cur
+       | "del" :: t :: r :: _ -> cur := OpDel (z_of_int (int_of_string t), z_of_int (int_of_string r)) :: !cur
        | "sync" :: _ -> eps := List.rev !cur :: !eps; cur := []
        | "X" :: _ ->
          let e = List.rev (List.rev !cur :: !eps) in
